@@ -11,7 +11,8 @@ _IRM = {}
 class E2Unit:
     """wrapper TU (+ real library sources) and a list of shapes = (entry, [concrete args], label)"""
     def __init__(self, name, wrapper, lib_srcs=(), defines=(), shapes=(), timeout=300, max_steps=3000000, max_paths=200000,
-                 conc_cap=64, stubs=(), bounds=None, extra_flags=(), native_extra=(), validate_vectors=20, o0=False):
+                 conc_cap=64, stubs=(), bounds=None, extra_flags=(), native_extra=(), validate_vectors=20, o0=False, int_mode=False):
+        self.int_mode = int_mode
         self.name = name; self.wrapper = wrapper; self.lib_srcs = list(lib_srcs); self.defines = list(defines)
         self.shapes = list(shapes); self.timeout = timeout; self.max_steps = max_steps; self.max_paths = max_paths
         self.conc_cap = conc_cap; self.stubs = list(stubs); self.bounds = bounds or {}
@@ -63,12 +64,13 @@ def _load(unit_dir):
 
 
 def _shape_worker(task):
-    (unit_dir, entry, args, label, timeout, max_steps, max_paths, conc_cap, stubs, inputs, data) = task
+    (unit_dir, entry, args, label, timeout, max_steps, max_paths, conc_cap, stubs, inputs, data) = task[:11]
+    int_mode = task[11] if len(task) > 11 else False
     t0 = time.time()
     out = dict(entry=entry, args=args, label=label, status='inconclusive', violations=[], reason='', stats={})
     try:
         irm = _load(unit_dir)
-        eng = irsym.Engine(irm, max_steps=max_steps, max_paths=max_paths, timeout=timeout, conc_cap=conc_cap, stubs=stubs)
+        eng = irsym.Engine(irm, max_steps=max_steps, max_paths=max_paths, timeout=timeout, conc_cap=conc_cap, stubs=stubs, int_mode=int_mode)
         if inputs is not None:
             eng.inputs = inputs
         def setup(e, s):
@@ -102,21 +104,21 @@ def _shape_worker(task):
     return out
 
 
-def run_e2(prop, tier, units, rule, assumptions, classify=None, keyfn=None, level_expl='', workers=None):
+def run_e2(prop, tier, units, rule, assumptions, classify=None, keyfn=None, level_expl='', workers=None, rep=None, finish=True):
     """build all units, explore all shapes in parallel, replay violations natively, report"""
-    rep = Report(prop, tier)
-    rep.assumptions = list(assumptions)
+    rep = rep or Report(prop, tier)
+    rep.assumptions += [a for a in assumptions if a not in rep.assumptions]
     replay_dir = os.path.join(os.environ.get('VERIF_REPLAY_DIR') or os.path.join(VERIF, 'replay'), prop)
     os.makedirs(replay_dir, exist_ok=True)
     t0 = time.time()
     pmap(lambda u: (u.build(), u.build_native()), units, workers=4)
-    rep.extra['build_wall_s'] = round(time.time() - t0, 1)
+    rep.extra['e2_build_wall_s'] = round(time.time() - t0, 1)
     tasks = []
     owner = []
     for u in units:
         for sh in u.shapes:
             entry, args, label = sh[:3]; data = sh[3] if len(sh) > 3 else None
-            tasks.append((u.dir, entry, list(args), label, u.timeout, u.max_steps, u.max_paths, u.conc_cap, u.stubs, None, data))
+            tasks.append((u.dir, entry, list(args), label, u.timeout, u.max_steps, u.max_paths, u.conc_cap, u.stubs, None, data, u.int_mode))
             owner.append(u)
     # validation of the executor: concrete inputs through irsym and through the native build must give the same notes
     rng = random.Random(SEED)
@@ -173,9 +175,11 @@ def run_e2(prop, tier, units, rule, assumptions, classify=None, keyfn=None, leve
                 rep.violation(key, '%s [%s] %s%s' % (r['entry'], r['label'], cls, '' if confirmed else ' (solver counterexample; not visible to ASan/UBSan)'), rfile)
             else:
                 rep.inconc(hid, 'counterexample "%s" did not reproduce natively: %s' % (cls, rfile))
-    rep.extra['replays'] = nreplay
+    rep.extra['e2_replays'] = nreplay
     names = demangle(sorted(funcs))
-    rep.extra['functions_encoded'] = [n for n in names if 'celma' in n][:400]
-    rep.extra['functions_encoded_total'] = len(funcs)
-    rep.samples = [dict(obligation=o['hid'], bounds=o['bounds'], verdict=o['status'], paths=o['paths']) for o in rep.obligations[:8]]
+    rep.extra['functions_encoded'] = sorted(set(rep.extra.get('functions_encoded', []) + [n for n in names if 'celma' in n]))[:400]
+    rep.extra['functions_encoded_total'] = rep.extra.get('functions_encoded_total', 0) + len(funcs)
+    rep.samples += [dict(obligation=o['hid'], bounds=o['bounds'], verdict=o['status'], paths=o.get('paths')) for o in rep.obligations if o.get('engine', '').startswith('E2')][:8]
+    if not finish:
+        return rep
     return rep.finish(rule, level_expl)
